@@ -1,6 +1,7 @@
 (* C06, step level: the predicates of Conn/C06_Pred.v as THEOREMS about every step of the model
    (every state satisfying a proved invariant, every event) and about every trace from vsock_new.
-     c06_joint_ok        along every trace from vsock_new (valid configuration)     c06_joint_ok_trace *)
+     c06_joint_ok        along every trace from vsock_new (valid configuration)     c06_joint_ok_trace
+     c06_cap_ok          under CAPc (an invariant), every step and trace            c06_cap_ok_step / _trace *)
 From Utp Require Conn.VSock_Inv.
 From Utp Require Import Base.Prelude Wire.SeqNr Wire.SeqNr_Proofs Wire.Header Rtt.Rtte Rtt.Rtte_Proofs
   Mtu.SegSizes Rx.Rx Tx.Ring Tx.Ring_Proofs Tx.Segments Tx.Segments_Proofs Tx.Segments_ProofsOut
@@ -119,6 +120,81 @@ Proof.
   unfold vsock_new in H0.
   destruct (match (if vc_incoming c then None else _) with Some r => _ | None => _ end); [|discriminate].
   inversion H0; subst. unfold JQ, TW. cbn. auto.
+Qed.
+
+(* ================================================================== c06_cap_ok *)
+Lemma vstep_nonpoll_segs : forall (s : vsock) o,
+  match o with VoPoll _ => True | _ => v_segs (vstep_state cci s o) = v_segs s end.
+Proof.
+  intros s o. unfold vstep_state. destruct o; try exact I; cbn [vstep]; repeat break_match; reflexivity.
+Qed.
+
+Lemma CAP_forallb : forall cfg (s : vsock),
+  CAP s -> o_max_retx (v_opts s) = vc_max_retx cfg ->
+  forallb (fun g => fg_retx g <=? vc_max_retx cfg) (f_segs (fp_of_vsock cci s)) = true.
+Proof.
+  intros cfg s [Hc _] Hm. cbn [fp_of_vsock f_segs]. apply forallb_forall. intros x Hx.
+  apply in_map_iff in Hx. destruct Hx as (g & <- & Hg).
+  unfold SP in Hc. rewrite Forall_forall in Hc. specialize (Hc g Hg).
+  unfold fseg_of, seg_retransmit_count, capP in *. cbn [fg_retx]. apply Z.leb_le. rewrite <- Hm. lia.
+Qed.
+
+Lemma MAXW_existsb : forall cfg (s : vsock),
+  MAXW s -> o_max_retx (v_opts s) = vc_max_retx cfg ->
+  existsb (fun g => (fg_retx g =? vc_max_retx cfg) && negb (fg_delivered g)) (f_segs (fp_of_vsock cci s)) = true.
+Proof.
+  intros cfg s (g & Hg & Hc & Hd) Hm. cbn [fp_of_vsock f_segs]. apply existsb_exists.
+  exists (fseg_of g). split; [apply in_map; exact Hg|].
+  unfold fseg_of. cbn [fg_retx fg_delivered]. rewrite Hd, Hc, Hm, Z.eqb_refl. reflexivity.
+Qed.
+
+Definition CAPc (c : vconfig) (s : vsock) : Prop := CAP s /\ o_max_retx (v_opts s) = vc_max_retx c.
+
+Theorem c06_cap_ok_step : forall cfg (s : vsock) o,
+  CAPc cfg s -> CAPc cfg (vstep_state cci s o) /\ c06_cap_ok cfg (fstep_of cci s o) = true.
+Proof.
+  intros cfg s o [Hc Hm].
+  destruct (vstep_keeps cci s o) as (Ko & _ & _).
+  assert (Hnon : (forall sc, o <> VoPoll sc) -> v_segs (vstep_state cci s o) = v_segs s ->
+                 CAPc cfg (vstep_state cci s o) /\ c06_cap_ok cfg (fstep_of cci s o) = true).
+  { intros Hnp Hs.
+    assert (Hc' : CAP (vstep_state cci s o)) by (eapply CAP_eq; eauto).
+    split; [split; [exact Hc' | congruence]|].
+    unfold c06_cap_ok. rewrite fstep_of_post, fstep_of_result.
+    rewrite (CAP_forallb cfg _ Hc') by congruence. cbn [andb].
+    destruct (vstep_nonpoll_out s o Hnp) as [_ Hr].
+    destruct (fresult_of (vstep_out cci s o)) eqn:Er; try reflexivity.
+    exfalso. eapply Hr. reflexivity. }
+  pose proof (vstep_nonpoll_segs s o) as Hsg.
+  destruct o as [t|m|sc|m| |buf| | |n| |]; try (apply Hnon; [discriminate | exact Hsg]). clear Hnon Hsg.
+  destruct (poll cci (VSockRec.set_sends s sc)) as [s' r] eqn:E.
+  destruct (vstep_poll cci s sc s' r E) as [V1 V2]. rewrite V1 in *.
+  assert (Hc0 : CAP (VSockRec.set_sends s sc)) by (eapply CAP_eq; [| |exact Hc]; reflexivity).
+  destruct (poll_CAP cci _ _ _ Hc0 E) as [Hc' Hx].
+  split; [split; [exact Hc' | congruence]|].
+  rewrite (fstep_of_poll cci s sc s' r E). unfold c06_cap_ok. cbn [fs_post fs_result].
+  rewrite (CAP_forallb cfg _ Hc') by congruence. cbn [andb].
+  destruct r; try reflexivity. destruct e; try reflexivity.
+  apply MAXW_existsb; [apply Hx; reflexivity | congruence].
+Qed.
+
+Lemma CAPc_vsock_new : forall mk c (s0 : vsock),
+  0 <= vc_max_retx c -> vsock_new cci mk c = Some s0 -> CAPc c s0.
+Proof.
+  intros mk c s0 H0 Hn. unfold vsock_new in Hn.
+  destruct (match (if vc_incoming c then None else _) with Some r => _ | None => _ end); [|discriminate].
+  inversion Hn; subst. unfold CAPc, CAP. cbn. split; [split; [constructor | exact H0] | reflexivity].
+Qed.
+
+Theorem c06_cap_ok_trace : forall mk c (s0 : vsock) ops,
+  0 <= vc_max_retx c -> vsock_new cci mk c = Some s0 ->
+  forallb (c06_cap_ok c) (ftrace cci s0 ops) = true.
+Proof.
+  intros mk c s0 ops H0 Hn.
+  apply (ftrace_forallb cci (CAPc c)).
+  - intros s o Hp. apply c06_cap_ok_step; exact Hp.
+  - intros s o Hp. apply c06_cap_ok_step; exact Hp.
+  - eapply CAPc_vsock_new; eassumption.
 Qed.
 
 End WithCC.
